@@ -57,7 +57,9 @@ SPEC = {
                   "checkpoints are modelled as a window in which worker_serve runs but no client event or timer fits (two scheduler "
                   "rounds); real-clock runs assert order exactly and instants with slack; the kernel accept queue (trio listens before "
                   "serving) is not 'accepting': the observation point is the first scope / response; the state copy is shallow "
-                  "(top-level keys).",
+                  "(top-level keys); report rule of the real-clock scenarios (worker.judge_with_reruns): a scenario about which a monitor or the "
+                  "model comparison says something is run again alone before anything is reported and only what it says again is reported - "
+                  "what does not come back is counted (not_reproduced_on_rerun) and sampled in the evidence.",
     "rule": "scenario = lifespan script (bare, or leaving through exception groups) x worker x client set (connect before / during / after "
             "start-up with a state probe each, one request held across the trigger; isolation scenarios: two more connections after start-up, "
             "one of which writes while the other's request is in progress, with an empty and with a seeded lifespan state; thorough: each "
